@@ -483,3 +483,21 @@ def option_tests(b):
                                     src = dd[0][2]["o"]["p"]
                                 out.append((bi, src, brk, cont, True))
     return out
+
+
+def option_return_blocks(b):
+    """(blocks that hand back None, blocks that hand back Some(..)) for a function returning Option: aggregates
+    written to `_0`, the early return of `?` (None), and calls whose result variant is known from variant
+    threading (`helper(..).map(f)` on a path where the helper returned None)."""
+    none_b, some_b = set(), set()
+    opt = b.locals[0]["ty"].startswith("core::option::Option<")
+    for bi, blk in enumerate(b.blocks):
+        for s in blk["s"]:
+            if s["k"] == "assign" and s["p"]["l"] == 0 and not s["p"]["pr"] and s["r"]["k"] == "agg" and s["r"].get("adt", "").endswith("option::Option"):
+                (none_b if s["r"]["variant"] == "None" else some_b).add(bi)
+            if s["k"] == "retnote" and s["adt"].endswith("option::Option"):
+                (none_b if s["vi"] == 0 else some_b).add(bi)
+        t = blk["t"]
+        if opt and t["k"] == "call" and t["d"]["l"] == 0 and not t["d"]["pr"] and any(n.endswith("from_residual") for n in callee_names(t)):
+            none_b.add(bi)
+    return none_b, some_b
